@@ -564,6 +564,7 @@ def run(pids, quick=False, seed=0, verbose=True, snippets=False):
 
 
 _GUARD_CALLS = {}
+_INLINE_CHECKS = {}
 
 
 def _guards_pass(spec, case):
@@ -575,9 +576,15 @@ def _guards_pass(spec, case):
     mod = importlib.import_module(spec['module'])
     key = (spec['module'], spec['qualname'])
     if key not in _GUARD_CALLS:
-        _GUARD_CALLS[key] = py2lean.FnTranslator(
+        tr = py2lean.FnTranslator(
             py2lean._find_function(_parse(spec['module']), spec['qualname']), spec,
-            _module_defs(spec['module'])).guard_calls
+            _module_defs(spec['module']))
+        _GUARD_CALLS[key] = tr.guard_calls
+        _INLINE_CHECKS[key] = [compile(ast.Expression(t), '<inline validation>', 'eval') for t in tr.inline_checks]
+    for code in _INLINE_CHECKS[key]:
+        # `if <test on parameters>: raise ...` written inline in the head (a guard is the identity on ints)
+        if eval(code, {}, {p: case[py2lean.mangle(p)] for p in spec['params']}):
+            return False
     for call in _GUARD_CALLS[key]:
         g = getattr(mod, call.func.id)
         args = [case[py2lean.mangle(call.args[0].id)]] + [ast.literal_eval(a) for a in call.args[1:]]
